@@ -1166,7 +1166,56 @@ def generate_iterdata(repo):
     return "\n".join(parts)
 
 
-GENERATORS = [("IterDataSrc.lean", generate_iterdata), ("DdsSrc.lean", generate_dds), ("DasSrc.lean", generate_das), ("HlibSrc.lean", generate_hlib), ("ProjSrc.lean", generate_proj), ("SsfSrc.lean", generate_ssf), ("DmrSrc.lean", generate_dmr), ("LibSrc.lean", generate_lib), ("SliceSrc.lean", generate), ("DapSrc.lean", generate_dap), ("DodsSrc.lean", generate_dods),
+
+def comprehension_elt(fn, name, loop_var):
+    """the element expression of the one list comprehension `[<elt> for <loop_var> in …]` in the assignment `name = …`"""
+    found = [n for n in ast.walk(fn) if isinstance(n, ast.Assign) and len(n.targets) == 1
+             and isinstance(n.targets[0], ast.Name) and n.targets[0].id == name]
+    if len(found) != 1:
+        raise Untranslatable("expected exactly one assignment `%s = …`" % name)
+    comps = [n for n in ast.walk(found[0].value) if isinstance(n, ast.ListComp)]
+    if len(comps) != 1 or len(comps[0].generators) != 1 or comps[0].generators[0].ifs \
+            or not isinstance(comps[0].generators[0].target, ast.Name) or comps[0].generators[0].target.id != loop_var:
+        raise Untranslatable("expected one comprehension `[… for %s in …]` in `%s = …`" % (loop_var, name))
+    return comps[0].elt
+
+
+def generate_client(repo):
+    """client.py `consolidate_metadata`: the texts it builds (C18's `Cons.declText`, `dimReq`, `dmrReq`, `baseUrlText`)"""
+    cl = parse_src(repo, "client.py")
+    SIZE = "results[0].dimensions[dim]"
+
+    def fn():
+        return find_function(cl, "consolidate_metadata")
+
+    def elt(name, var, out, table, strs):
+        def go():
+            with abstracting(table, str_vars=strs):
+                return "(.assign %s %s)" % (lstr(out), expr(comprehension_elt(fn(), name, var)))
+        return go
+
+    def base_url():
+        with abstracting({"URLs[0]": "@URL0"}, str_vars={"URLs[0]"}):
+            return assignments(fn(), ["base_url"])
+
+    parts = [HEADER,
+             block("src_consolidate_dim_ce", "client.py consolidate_metadata: the element of the comprehension in `dim_ces = set([…])`; "
+                   "`dim` is an input, `@size` stands for `results[0].dimensions[dim]`",
+                   elt("dim_ces", "dim", "@elt", {SIZE: "@size"}, {"dim"})),
+             block("src_consolidate_new_url", "client.py consolidate_metadata: the element of the comprehension in `new_urls = […]`; "
+                   "`base_url`, `dim` are inputs, `@size` stands for `results[0].dimensions[dim]`",
+                   elt("new_urls", "dim", "@elt", {SIZE: "@size"}, {"dim", "base_url"})),
+             block("src_consolidate_http_url", "client.py consolidate_metadata: the element of `URLs = [\"http\" + urls[i][4:] …]`; "
+                   "`@url` stands for `urls[i]`", elt("URLs", "i", "@elt", {"urls[i]": "@url"}, {"urls[i]"})),
+             block("src_consolidate_dmr_url", "client.py consolidate_metadata: the element of `dmr_urls = [… for url in URLs]`",
+                   elt("dmr_urls", "url", "@elt", {}, {"url"})),
+             block("src_consolidate_base_url", "client.py consolidate_metadata: `base_url = URLs[0].split(\"?\")[0]`; `@URL0` "
+                   "stands for `URLs[0]`", base_url),
+             "end Pydap.Gen\n"]
+    return "\n".join(parts)
+
+
+GENERATORS = [("ClientSrc.lean", generate_client), ("IterDataSrc.lean", generate_iterdata), ("DdsSrc.lean", generate_dds), ("DasSrc.lean", generate_das), ("HlibSrc.lean", generate_hlib), ("ProjSrc.lean", generate_proj), ("SsfSrc.lean", generate_ssf), ("DmrSrc.lean", generate_dmr), ("LibSrc.lean", generate_lib), ("SliceSrc.lean", generate), ("DapSrc.lean", generate_dap), ("DodsSrc.lean", generate_dods),
               ("AppSrc.lean", generate_app), ("CeSrc.lean", generate_ce)]
 
 
